@@ -453,6 +453,8 @@ val dAYS_IN_YEAR_LEAP : mode -> z
 
 val mAX_DAYS_IN_MONTH : mode -> z
 
+val max_weeks_in_year : mode -> z
+
 val get_days_in_year : mode -> z -> z
 
 val year_months : mode -> z -> z list
@@ -934,6 +936,12 @@ val sh_ob : bool option -> char list
 val fUEL : nat
 
 val rTrunc : trunc rd
+
+val in_rng_o : z option -> z -> z -> bool
+
+val in_rng_q : q option -> z -> z -> bool -> bool
+
+val trunc_bounds_ok : mode -> trunc -> bool
 
 val sh_tres : tres -> char list
 
